@@ -273,9 +273,9 @@ def einsumR (eq : EinEq) (x y : Tensor α) : Except PyErr (Tensor α) :=
         x.at (opIdx eq.a x.shape env) * y.at (opIdx eq.b y.shape env)))))
   else .error .RuntimeError
 
-/-! ### products (cplx.py:83-223, 297-316) -/
+/-! ### products (cplx.py:83-224, 298-317) -/
 
-/-- tensor part of `scalar_mult(x, y)` (cplx.py:98-106):
+/-- tensor part of `scalar_mult(x, y)` (cplx.py:98-107):
 `re = xr*yr − xi*yi`, `im = xr*yi + xi*yr` with broadcasting `torch.mul` -/
 def scalarMult (x y : Tensor α) : Except PyErr (Tensor α) := do
   let xr ← real x
@@ -299,24 +299,37 @@ values (the cast is exact for float32→float64 and for small integers, the only
 def toLike (y x : Obj α) (fresh : Nat) : Obj α :=
   if y.dtype = x.dtype then y else ⟨fresh, x.dtype, y.t⟩
 
-/-- `scalar_mult(x, y, out=None)` (cplx.py:83-106) on objects: `RuntimeError` when `out` IS `x` or IS
-`y` (after `y = y.to(x)`); otherwise the product, written into `out` (its identity and dtype) or into a
-new tensor of `x`'s dtype.
-Precondition not checked by the code: a given `out` has the shape of the result (for other shapes torch
-resizes the two views `real(out)`, `imag(out)`; not modelled, see notes/C15.md). -/
+/-- `(2, *torch.broadcast_shapes(real(x).shape, real(y).shape))` (cplx.py:101): the shape of the product;
+`IndexError` from `real`, torch's `RuntimeError` when the shapes do not broadcast -/
+def resultShape (x y : Tensor α) : Except PyErr (List Nat) := do
+  let xr ← real x
+  let yr ← real y
+  let r ← broadcastShape xr.shape yr.shape
+  pure (2 :: r)
+
+/-- `scalar_mult(x, y, out=None)` (cplx.py:83-107) on objects, in the code's order:
+1. `out is x or out is y` on the ORIGINAL objects → `RuntimeError` (whatever the dtypes and shapes);
+2. `y = y.to(x)`;
+3. without `out`: a new tensor of `x`'s dtype; with `out`: its shape must be `(2, *broadcast_shapes(…))`, else
+   `ValueError`;
+4. the product is written into `out` (its identity and dtype are the result's). -/
 def scalarMultO (x y : Obj α) (out : Option (Obj α)) (freshCast freshOut : Nat) : Except PyErr (Obj α) :=
-  let y' := toLike y x freshCast
   match out with
   | none => do
+    let y' := toLike y x freshCast
     let r ← scalarMult x.t y'.t
     pure ⟨freshOut, x.dtype, r⟩
   | some o =>
-    if o.id = x.id ∨ o.id = y'.id then .error .RuntimeError
+    if o.id = x.id ∨ o.id = y.id then .error .RuntimeError
     else do
-      let r ← scalarMult x.t y'.t
-      pure ⟨o.id, o.dtype, r⟩
+      let y' := toLike y x freshCast
+      let rs ← resultShape x.t y'.t
+      if o.t.shape ≠ rs then .error .ValueError
+      else do
+        let r ← scalarMult x.t y'.t
+        pure ⟨o.id, o.dtype, r⟩
 
-/-- `matmul(x, y)` (cplx.py:109-127) -/
+/-- `matmul(x, y)` (cplx.py:110-128) -/
 def matmul (x y : Tensor α) : Except PyErr (Tensor α) := do
   let xr ← real x
   let yr ← real y
@@ -328,7 +341,7 @@ def matmul (x y : Tensor α) : Except PyErr (Tensor α) := do
   let ir ← matmulR xi yr
   makeComplex (rr.zip (fun a b => a - b) ii) (some (ri.zip (fun a b => a + b) ir))
 
-/-- `inner_prod(x, y)` (cplx.py:130-158): `⟨x|y⟩`; `dim()` counts the complex axis -/
+/-- `inner_prod(x, y)` (cplx.py:131-159): `⟨x|y⟩`; `dim()` counts the complex axis -/
 def innerProd (x y : Tensor α) : Except PyErr (Tensor α) :=
   if x.shape.length = 2 ∧ y.shape.length = 2 then do
     let xr ← real x
@@ -352,7 +365,7 @@ def innerProd (x y : Tensor α) : Except PyErr (Tensor α) :=
     makeComplex (rr.zip (fun a b => a + b) ii) (some (ri.zip (fun a b => a - b) ir))
   else .error .ValueError
 
-/-- `outer_prod(x, y)` (cplx.py:161-184):
+/-- `outer_prod(x, y)` (cplx.py:162-185):
 `z[0] = ger(xr, yr) − ger(xi, −yi)`, `z[1] = ger(xr, −yi) + ger(xi, yr)` -/
 def outerProd (x y : Tensor α) : Except PyErr (Tensor α) :=
   if x.shape.length ≠ 2 ∨ y.shape.length ≠ 2 then .error .ValueError
@@ -374,7 +387,7 @@ inductive EinRes (α : Type) where
   | re (t : Tensor α)
   | none
 
-/-- `r` of `einsum` (cplx.py:207-210): `einsum(re a, re b).sub_(einsum(im a, im b))` -/
+/-- `r` of `einsum` (cplx.py:208-211): `einsum(re a, re b).sub_(einsum(im a, im b))` -/
 def einsumRe (eq : EinEq) (a b : Tensor α) : Except PyErr (Tensor α) := do
   let ar ← real a
   let br ← real b
@@ -384,7 +397,7 @@ def einsumRe (eq : EinEq) (a b : Tensor α) : Except PyErr (Tensor α) := do
   let ii ← einsumR eq ai bi
   pure (rr.zip (fun u v => u - v) ii)
 
-/-- `i` of `einsum` (cplx.py:211-214): `einsum(re a, im b).add_(einsum(im a, re b))` -/
+/-- `i` of `einsum` (cplx.py:212-215): `einsum(re a, im b).add_(einsum(im a, re b))` -/
 def einsumIm (eq : EinEq) (a b : Tensor α) : Except PyErr (Tensor α) := do
   let ar ← real a
   let bi ← imag b
@@ -400,7 +413,7 @@ def einsumFull (eq : EinEq) (a b : Tensor α) : Except PyErr (Tensor α) := do
   let i ← einsumIm eq a b
   makeComplex r (some i)
 
-/-- `einsum(equation, a, b, real_part, imag_part)` (cplx.py:187-223) -/
+/-- `einsum(equation, a, b, real_part, imag_part)` (cplx.py:188-224) -/
 def einsum (eq : EinEq) (a b : Tensor α) (realPart imagPart : Bool) : Except PyErr (EinRes α) :=
   match realPart, imagPart with
   | true, true => do
@@ -414,13 +427,13 @@ def einsum (eq : EinEq) (a b : Tensor α) (realPart imagPart : Bool) : Except Py
     pure (.re i)
   | false, false => pure .none
 
-/-- `conj(x)` (cplx.py:247-256) -/
+/-- `conj(x)` (cplx.py:248-257) -/
 def conj (x : Tensor α) : Except PyErr (Tensor α) := do
   let xr ← real x
   let xi ← imag x
   makeComplex xr (some (xi.map (fun v => -v)))
 
-/-- `conjugate(x)` (cplx.py:226-244): `dim() < 3` → `conj`; otherwise conj + swap of the first two
+/-- `conjugate(x)` (cplx.py:227-245): `dim() < 3` → `conj`; otherwise conj + swap of the first two
 tensor axes -/
 def conjugate (x : Tensor α) : Except PyErr (Tensor α) :=
   if x.shape.length < 3 then conj x
@@ -431,38 +444,38 @@ def conjugate (x : Tensor α) : Except PyErr (Tensor α) :=
     let ti ← transpose01 xi
     makeComplex tr (some (ti.map (fun v => -v)))
 
-/-- `elementwise_mult(x, y)` (cplx.py:259-261) -/
+/-- `elementwise_mult(x, y)` (cplx.py:260-262) -/
 def elementwiseMult (x y : Tensor α) : Except PyErr (Tensor α) := scalarMult x y
 
 /-- the equation `"ab,cd->acbd"` -/
 def kronEq : EinEq := ⟨[0, 1], [2, 3], [0, 2, 1, 3]⟩
 
-/-- `kronecker_prod(x, y)` (cplx.py:297-316) -/
+/-- `kronecker_prod(x, y)` (cplx.py:298-317) -/
 def kroneckerProd (x y : Tensor α) : Except PyErr (Tensor α) :=
   if ¬ (x.shape.length = y.shape.length ∧ y.shape.length = 3) then .error .ValueError
   else do
     let z ← einsumFull kronEq x y
     reshape z [2, x.shape.getD 1 0 * y.shape.getD 1 0, x.shape.getD 2 0 * y.shape.getD 2 0]
 
-/-- `norm_sqr(x) = real(inner_prod(x, x))` (cplx.py:368-377) -/
+/-- `norm_sqr(x) = real(inner_prod(x, x))` (cplx.py:369-378) -/
 def normSqr (x : Tensor α) : Except PyErr (Tensor α) := do
   let p ← innerProd x x
   real p
 
 end ring
 
-/-! ### division, modulus, sigmoid (cplx.py:264-294, 319-389) -/
+/-! ### division, modulus, sigmoid (cplx.py:265-295, 319-389) -/
 section field
 variable {α : Type} [Add α] [Mul α] [Neg α] [Sub α] [Div α] [Zero α] [One α] [Transc α]
 
-/-- `absolute_value(x) = real(elementwise_mult(x, conj(x))).sqrt_()` (cplx.py:284-294) -/
+/-- `absolute_value(x) = real(elementwise_mult(x, conj(x))).sqrt_()` (cplx.py:285-295) -/
 def absoluteValue (x : Tensor α) : Except PyErr (Tensor α) := do
   let xs ← conj x
   let p ← elementwiseMult x xs
   let r ← real p
   pure (r.map Transc.sqrt)
 
-/-- `elementwise_division(x, y)` (cplx.py:264-281): `x·conj(y)` divided (broadcast `div_`) by
+/-- `elementwise_division(x, y)` (cplx.py:265-282): `x·conj(y)` divided (broadcast `div_`) by
 `absolute_value(y).pow_(2)` -/
 def elementwiseDivision (x y : Tensor α) : Except PyErr (Tensor α) :=
   if x.shape ≠ y.shape then .error .ValueError
@@ -473,19 +486,19 @@ def elementwiseDivision (x y : Tensor α) : Except PyErr (Tensor α) :=
     let p ← elementwiseMult x ys
     bop (fun a b => a / b) p sq
 
-/-- `inverse(z) = conj(z) / real(scalar_mult(z, conj(z)))` (cplx.py:353-365) -/
+/-- `inverse(z) = conj(z) / real(scalar_mult(z, conj(z)))` (cplx.py:354-366) -/
 def inverse (z : Tensor α) : Except PyErr (Tensor α) := do
   let zs ← conj z
   let p ← scalarMult z zs
   let den ← real p
   bop (fun a b => a / b) zs den
 
-/-- `scalar_divide(x, y) = scalar_mult(x, inverse(y))` (cplx.py:337-350) -/
+/-- `scalar_divide(x, y) = scalar_mult(x, inverse(y))` (cplx.py:338-351) -/
 def scalarDivide (x y : Tensor α) : Except PyErr (Tensor α) := do
   let iy ← inverse y
   scalarMult x iy
 
-/-- `norm(x) = norm_sqr(x).sqrt_()` (cplx.py:380-389) -/
+/-- `norm(x) = norm_sqr(x).sqrt_()` (cplx.py:381-390) -/
 def norm (x : Tensor α) : Except PyErr (Tensor α) := do
   let n ← normSqr x
   pure (n.map Transc.sqrt)
@@ -498,7 +511,7 @@ def sigC (z : C α) : C α :=
   let e := expC z
   C.div e (1 + e.1, e.2)
 
-/-- `sigmoid(x, y)` (cplx.py:319-334) of two REAL tensors: numpy broadcasting of `x + 1j*y`
+/-- `sigmoid(x, y)` (cplx.py:320-335) of two REAL tensors: numpy broadcasting of `x + 1j*y`
 (`ValueError` when they do not broadcast), then `[real(out), imag(out)]` -/
 def sigmoid (x y : Tensor α) : Except PyErr (Tensor α) :=
   match broadcastShape x.shape y.shape with
